@@ -47,18 +47,22 @@ def STy.baseSel : STy → Bool
   | .tuple _ => false
 
 mutual
-/-- JSON-ABI rendering as a `dig.Input` (`components` carry the tuple's members) -/
-def STy.toInp (indexed : Bool) (t : STy) : Inp :=
-  .mk indexed t.baseSel t.typeString (STy.compsOf t)
 /-- components of the base tuple (none for elementary bases) -/
 def STy.compsOf : STy → Inps
   | .arr _ e => STy.compsOf e
   | .elem _ _ => .nil
   | .tuple fs => STys.toInps fs
+/-- JSON-ABI rendering of a member list (members are never `indexed`) -/
 def STys.toInps : STys → Inps
   | .nil => .nil
-  | .cons t ts => .cons (STy.toInp false t) (STys.toInps ts)
+  | .cons t ts => .cons (.mk false t.baseSel t.typeString (STy.compsOf t)) (STys.toInps ts)
 end
+
+/-- JSON-ABI rendering as a `dig.Input` (`components` carry the tuple's members).
+    Kept outside the mutual block so that the block is structurally recursive (and hence reduces
+    in the kernel); `STys.toInps (.cons t ts) = .cons (t.toInp false) (STys.toInps ts)` by `rfl`. -/
+def STy.toInp (indexed : Bool) (t : STy) : Inp :=
+  .mk indexed t.baseSel t.typeString (STy.compsOf t)
 
 /-- `bytes` and `string` are the dynamic elementary types -/
 def isDynName (name : List Char) : Bool := name == "bytes".toList || name == "string".toList
